@@ -86,7 +86,7 @@ def main():
         else:
             for c in checks:
                 t0 = time.time()
-                rc, o = sh(f"./check {c} --tier {a.tier}", cwd=VERIF, timeout=6000)
+                rc, o = sh(f"{PY} {VERIF}/tools/check.py {c} --tier {a.tier}", cwd=VERIF, timeout=6000)
                 lines = [ln for ln in o.split("\n") if ln.startswith(("VIOLATION", "KNOWN-FINDING", "OK "))]
                 results[c] = {"exit": rc, "lines": [ln[:300] for ln in lines[:6]], "wall_s": round(time.time() - t0, 1)}
                 meta["ran"].append(f"./check {c} --tier {a.tier} (patch applied to /repo)")
